@@ -30,7 +30,7 @@ PARALLEL = True
 RULE = "all words <= bound with <= 3 snapshots x terminal lists x modes; non-trivial = at least one snapshot after a state-changing gate"
 
 G = 0.3
-GATES = [["Hadamard", [0], []], ["CNOT", [0, 1], []], ["RX", [1], [G]], ["RX", [0], [X.B3]]]
+GATES = [["Hadamard", [0], []], ["CNOT", [0, 1], []], ["RX", [1], [G]], ["RX", [0], [X.B3]], ["GlobalPhase", [], [0.7]]]
 SNAPS = [["Snapshot", [], [], {}],
          ["Snapshot", [], [], {"tag": "a"}],
          ["Snapshot", [], [], {"tag": "b", "meas": ["probs", [1, 0]]}],
